@@ -193,7 +193,14 @@ macro_rules! impl_wide_float {
             impl Round for $ty {
                 #[inline]
                 fn round(self) -> Self {
-                    $ty::round(self)
+                    // `wide` rounds half-way cases to even, the trait promises away from 0.0
+                    let mut array = self.into_array();
+
+                    for scalar in &mut array {
+                        *scalar = scalar.round();
+                    }
+
+                    array.into()
                 }
 
                 #[inline]
